@@ -4,6 +4,7 @@ from __future__ import annotations
 
 import json
 import os
+import re
 import shutil
 import sys
 import tempfile
@@ -48,67 +49,202 @@ def yval(w) -> str:
     raise ValueError(f'not expressible in yaml: {w}')
 
 
+STEP_KEYS = ['name', 'description', 'in', 'run', 'skip', 'swallow', 'foreach', 'while', 'retry', 'onError']
+
+
+def is_item(st):
+    """A sequence item that is neither a step name nor a step mapping: {'item': wire value}."""
+    return isinstance(st, dict) and set(st) == {'item'}
+
+
+def step_pairs(st):
+    """[(key, yaml flow text)] of a complex step, in the order the keys are written."""
+    out = []
+    for key in STEP_KEYS:
+        if key not in st:
+            continue
+        v = st[key]
+        if key == 'name':
+            # a name that is not a string (a yaml slip) is written as the value it is
+            txt = 'null' if v is None else (v if isinstance(v, str) and PLAIN.match(v) else yval(v))
+        elif key == 'in':
+            txt = 'null' if v is None else '{' + ', '.join(f'{yval(k)}: {yval(x)}' for k, x in v) + '}'
+        elif key in ('while', 'retry'):
+            if v is None:
+                txt = 'null'
+            elif 'bad' in v:
+                txt = yval(v['bad'])
+            else:
+                txt = '{' + ', '.join(f'{k}: {yval(x)}' for k, x in v.items()) + '}'
+        else:
+            txt = yval(v)
+        out.append((key, txt))
+    if not out:
+        raise ValueError('step without keys')
+    return out
+
+
+PLAIN = re.compile(r'^[A-Za-z_][A-Za-z0-9_.]*$')
+
+
+def body_scalar(steps):
+    """A group body that is not a sequence: {'scalar': wire value} (int, float, bool, str, mapping, tag)."""
+    return isinstance(steps, dict) and set(steps) == {'scalar'}
+
+
 def render_pipe(pipe) -> str:
-    """Render one pipeline; fills step['line'], step['col'] (1-based, as Step computes them)."""
-    lines = []
-    if pipe.get('parser'):
-        lines.append(f"context_parser: {pipe['parser']}")
-    for gname, steps in pipe['groups']:
-        if steps is None:
-            lines.append(f'{gname}:')
-            continue
-        if not steps:
-            lines.append(f'{gname}: []')
-            continue
-        lines.append(f'{gname}:')
-        for st in steps:
-            if isinstance(st, str):
-                lines.append(f'  - {st}')
+    """Render one pipeline; fills step['line'], step['col'] (1-based) with the place the renderer itself
+    puts the step: the first key of a block mapping, the opening brace of a flow mapping.
+
+    pipe['layout'] (optional) chooses among equivalent ways of writing the same document:
+      style   'block' (default) | 'flow' (every group a flow sequence) | 'wrap' (the whole document one flow
+              mapping: JSON-style)
+      quote   flow/wrap: keys and plain strings in double quotes (JSON)
+      perline flow/wrap: True: every step starts on a line of its own; 'rest': every step but the first of
+              its group; False: all on the line of the group key
+      pad     flow/wrap + perline: indentation of those lines
+      indent  block: column offset of the dash (0, 2, 4)
+      dashsplit block: the dash alone on its line, the mapping on the next
+      lead    number of comment lines before the document; docstart: a '---' line
+    """
+    lay = pipe.get('layout') or {}
+    style = lay.get('style', 'block')
+    lines = ['# generated'] * int(lay.get('lead', 0))
+    if lay.get('docstart'):
+        lines.append('---')
+    if style == 'block':
+        ind = ' ' * int(lay.get('indent', 2))
+        if pipe.get('parser'):
+            lines.append(f"context_parser: {pipe['parser']}")
+        for gname, steps in pipe['groups']:
+            if steps is None:
+                lines.append(f'{gname}:')
                 continue
-            first = True
-            order = ['name', 'description', 'in', 'run', 'skip', 'swallow', 'foreach', 'while', 'retry', 'onError']
-            for key in order:
-                if key not in st:
+            if body_scalar(steps):
+                lines.append(f"{gname}: {yval(steps['scalar'])}")
+                continue
+            if not steps:
+                lines.append(f'{gname}: []')
+                continue
+            lines.append(f'{gname}:')
+            for st in steps:
+                if isinstance(st, str):
+                    lines.append(f'{ind}- {st}' if PLAIN.match(st) else f'{ind}- {yval(st)}')
                     continue
-                v = st[key]
-                if key == 'name':
-                    txt = 'null' if v is None else v
-                elif key == 'in':
-                    txt = 'null' if v is None else '{' + ', '.join(f'{yval(k)}: {yval(x)}' for k, x in v) + '}'
-                elif key in ('while', 'retry'):
-                    if v is None:
-                        txt = 'null'
-                    elif 'bad' in v:
-                        txt = yval(v['bad'])
-                    else:
-                        txt = '{' + ', '.join(f'{k}: {yval(x)}' for k, x in v.items()) + '}'
+                if is_item(st):
+                    lines.append(f"{ind}- {yval(st['item'])}")
+                    continue
+                pairs = step_pairs(st)
+                if lay.get('dashsplit'):
+                    lines.append(f'{ind}-')
+                    st['line'], st['col'] = len(lines) + 1, len(ind) + 3
+                    lines.append(f'{ind}  {pairs[0][0]}: {pairs[0][1]}')
                 else:
-                    txt = yval(v)
-                if first:
-                    st['line'] = len(lines) + 1
-                    st['col'] = 5
-                    lines.append(f'  - {key}: {txt}')
-                    first = False
+                    st['line'], st['col'] = len(lines) + 1, len(ind) + 3
+                    lines.append(f'{ind}- {pairs[0][0]}: {pairs[0][1]}')
+                for key, txt in pairs[1:]:
+                    lines.append(f'{ind}  {key}: {txt}')
+        return '\n'.join(lines) + '\n'
+    # flow styles: the text is built piece by piece so that the position of every opening brace is known
+    quote = bool(lay.get('quote'))
+    perline = lay.get('perline') or False      # False | True | 'rest' (all but the first step of a group)
+    pad = ' ' * int(lay.get('pad', 2))
+    buf = []          # finished lines
+    cur = ['']        # the line being written
+
+    def emit(txt):
+        cur[0] += txt
+
+    def newline():
+        buf.append(cur[0])
+        cur[0] = ''
+
+    def here():
+        return len(lines) + len(buf) + 1, len(cur[0]) + 1
+
+    def key(k):
+        return json.dumps(k) if quote else k
+
+    def scalar(s):
+        return s if (not quote and PLAIN.match(s)) else json.dumps(s, ensure_ascii=True)
+
+    def seq(steps):
+        emit('[')
+        for n, st in enumerate(steps):
+            if n:
+                emit(',' if (perline is True or perline == 'rest') else ', ')
+            if perline is True or (perline == 'rest' and n):
+                newline()
+                emit(pad)
+            if isinstance(st, str):
+                emit(scalar(st))
+            elif is_item(st):
+                emit(yval(st['item']))
+            else:
+                st['line'], st['col'] = here()
+                pairs = step_pairs(st)
+                emit('{' + ', '.join(
+                    f'{key(k)}: ' + (scalar(st['name']) if k == 'name' and isinstance(st['name'], str) else t)
+                    for k, t in pairs) + '}')
+        emit(']')
+
+    def body(steps):
+        if steps is None:
+            emit('null')
+        elif body_scalar(steps):
+            emit(yval(steps['scalar']))
+        else:
+            seq(steps)
+
+    entries = []
+    if pipe.get('parser'):
+        entries.append(('context_parser', pipe['parser']))
+    for gname, steps in pipe['groups']:
+        entries.append((gname, ('body', steps)))
+    if style == 'wrap':
+        emit('{')
+        for n, (k, v) in enumerate(entries):
+            if n:
+                emit(',')
+                if perline:
+                    newline()
+                    emit(pad[:-1] if len(pad) > 1 else pad)
                 else:
-                    lines.append(f'    {key}: {txt}')
-            if first:
-                raise ValueError('step without keys')
-    return '\n'.join(lines) + '\n'
+                    emit(' ')
+            emit(key(k) + ': ')
+            if isinstance(v, tuple):
+                body(v[1])
+            else:
+                emit(scalar(v))
+        emit('}')
+        newline()
+    else:
+        for k, v in entries:
+            emit(key(k) + ': ')
+            if isinstance(v, tuple):
+                body(v[1])
+            else:
+                emit(scalar(v))
+            newline()
+    return '\n'.join(lines + buf) + '\n'
+
+
+def steps_of(body):
+    """The entries of a group body that is a sequence ([] for null / a body that is not a sequence)."""
+    return body if isinstance(body, list) else []
 
 
 def strip_for_model(prog):
     """The model takes the same program; `None` while/retry mean absent."""
     out = json.loads(json.dumps(prog))
     for pipe in out['pipes']:
+        pipe.pop('layout', None)       # where the text stands reaches the model as line/col of every step
         for _, steps in pipe['groups']:
-            for st in steps or []:
-                if isinstance(st, dict):
+            for st in steps_of(steps):
+                if isinstance(st, dict) and not is_item(st):
                     for k in ('while', 'retry'):
                         if k in st and st[k] is None:
                             del st[k]
-                    # a description only words the step's notification (directed cases keep its up-front
-                    # evaluation of run/skip free of errors): not part of the model's step
-                    st.pop('description', None)
     return out
 
 
